@@ -92,7 +92,7 @@ def search(seed=0, trials=40, tol=1e-9):
             from tdgl.solver.options import SparseSolver
             for solver in (SparseSolver.SUPERLU, SparseSolver.PARDISO, SparseSolver.UMFPACK):
                 try:
-                    mo = MeshOperators(mesh, solver, fixed_sites=None, fix_psi=False)
+                    mo = MeshOperators(mesh, solver, fixed_sites=(fixed if solver is SparseSolver.SUPERLU and len(fixed) else None), fix_psi=bool(solver is SparseSolver.SUPERLU and len(fixed)))
                     mo.build_operators()
                 except Exception:       # optional back end not installed: the branch cannot run here
                     continue
